@@ -340,3 +340,96 @@ mod tests {
         assert_eq!(parse_document(b""), Ok(vec![]));
     }
 }
+
+/// Spans (depth, start, end) of the values of every dictionary key equal to `key`, at any depth, in
+/// document order. Depth 1 = a key of a top-level dictionary. Returns None if the document is malformed.
+pub fn key_value_spans(data: &[u8], key: &[u8]) -> Option<Vec<(usize, usize, usize)>> {
+    fn scan(p: &mut Parser, depth: usize, key: &[u8], out: &mut Vec<(usize, usize, usize)>) -> Option<()> {
+        match p.data.get(p.pos).copied()? {
+            b'l' => {
+                p.pos += 1;
+                loop {
+                    if p.data.get(p.pos).copied()? == b'e' {
+                        p.pos += 1;
+                        return Some(());
+                    }
+                    scan(p, depth, key, out)?;
+                }
+            }
+            b'd' => {
+                p.pos += 1;
+                loop {
+                    if p.data.get(p.pos).copied()? == b'e' {
+                        p.pos += 1;
+                        return Some(());
+                    }
+                    let k = match p.value().ok()? {
+                        RVal::Str(k) => k,
+                        _ => return None,
+                    };
+                    let s = p.pos;
+                    scan(p, depth + 1, key, out)?;
+                    if k == key {
+                        out.push((depth + 1, s, p.pos));
+                    }
+                }
+            }
+            _ => {
+                p.value().ok()?;
+                Some(())
+            }
+        }
+    }
+    let mut p = Parser::new(data);
+    let mut out = vec![];
+    while p.pos < data.len() {
+        scan(&mut p, 0, key, &mut out)?;
+    }
+    out.sort_by_key(|(_, s, _)| *s);
+    Some(out)
+}
+
+/// Writer with optional leading zeros in string lengths (legal, non-canonical). `lz` is consumed cyclically,
+/// one entry per string written (keys included).
+pub struct NcWriter<'a> {
+    pub lz: &'a [u8],
+    pub k: usize,
+    pub out: Vec<u8>,
+}
+
+impl<'a> NcWriter<'a> {
+    pub fn new(lz: &'a [u8]) -> NcWriter<'a> {
+        NcWriter { lz, k: 0, out: vec![] }
+    }
+    pub fn str(&mut self, s: &[u8]) {
+        if !self.lz.is_empty() {
+            let z = self.lz[self.k % self.lz.len()] as usize;
+            self.k += 1;
+            for _ in 0..z {
+                self.out.push(b'0');
+            }
+        }
+        write_str(s, &mut self.out);
+    }
+    pub fn val(&mut self, v: &RVal) {
+        match v {
+            RVal::Int(_) => write(v, &mut self.out),
+            RVal::Str(s) => self.str(s),
+            RVal::List(l) => {
+                self.out.push(b'l');
+                for x in l {
+                    self.val(x);
+                }
+                self.out.push(b'e');
+            }
+            RVal::Dict(d) => {
+                self.out.push(b'd');
+                for (k, x) in d {
+                    self.str(k);
+                    self.val(x);
+                }
+                self.out.push(b'e');
+            }
+        }
+    }
+}
